@@ -15,7 +15,8 @@
    the narrower one, and identical to the stored value otherwise) -- provided the 2^N surrounding values
    are finite at the coordinate precision (0 * inf is NaN in the code as well). *)
 From Coq Require Import ZArith List Bool Reals Ring_theory.
-From Covfie Require Import LinearCore Stack LinearProofs LinearBridge LinearReal FloatOps LinearLattice LinearLatticeFloat.
+From Covfie Require Import LinearCore Stack LinearProofs LinearBridge LinearReal FloatOps LinearLattice LinearLatticeFloat LinLang Refine_Linear.
+From Covfie.gen Require Import Gen_Linear.
 Import ListNotations.
 
 Theorem C03_generic_branch_is_interpolant : forall T rO rI radd rmul rsub ropp, ring_theory rO rI radd rmul rsub ropp (@eq T) ->
@@ -93,7 +94,38 @@ Proof.
   split; [repeat constructor|vm_compute; reflexivity].
 Qed.
 
+(* ---- the code itself: every branch of linear.hpp's lookup, translated from the source on this run
+   (gen/Gen_Linear.v, LinLang semantics), queries the backend at exactly the neighbour coordinates the model
+   queries, in the same order, and computes each output component exactly as Stack.linear_comp does (same
+   operations, operands, order and type conversions), for arbitrary scalar operations, type tags, coordinates
+   and backend answers; N = 1, 2, 3 (specialised branches) and N = 4, 5 (generic branch) ---- *)
+Theorem C03_code_branch_1 : forall ops tc tidx tv vals q x0,
+  code ops tc tidx tv vals q lin_branch_1 [x0] = model ops tc tidx tv vals q true [x0].
+Proof. exact branch_1_refines. Qed.
+Theorem C03_code_branch_2 : forall ops tc tidx tv vals q x0 x1,
+  code ops tc tidx tv vals q lin_branch_2 [x0; x1] = model ops tc tidx tv vals q true [x0; x1].
+Proof. exact branch_2_refines. Qed.
+Theorem C03_code_branch_3 : forall ops tc tidx tv vals q x0 x1 x2,
+  code ops tc tidx tv vals q lin_branch_3 [x0; x1; x2] = model ops tc tidx tv vals q true [x0; x1; x2].
+Proof. exact branch_3_refines. Qed.
+Theorem C03_code_branch_generic_4 : forall ops tc tidx tv vals q x0 x1 x2 x3,
+  code ops tc tidx tv vals q lin_branch_generic [x0; x1; x2; x3] = model ops tc tidx tv vals q false [x0; x1; x2; x3].
+Proof. exact branch_generic_refines_4. Qed.
+Theorem C03_code_branch_generic_5 : forall ops tc tidx tv vals q x0 x1 x2 x3 x4,
+  code ops tc tidx tv vals q lin_branch_generic [x0; x1; x2; x3; x4] = model ops tc tidx tv vals q false [x0; x1; x2; x3; x4].
+Proof. exact branch_generic_refines_5. Qed.
+(* the if-constexpr chain picks the specialised branches where the model does, and [model] is what linear_at is made of *)
+Theorem C03_code_branch_selection : forall N, (1 <= N)%nat -> (N <=? 3)%nat = existsb (Nat.eqb N) lin_specialised_dims.
+Proof. exact branch_selection. Qed.
+Theorem C03_model_is_the_layer : forall (ops : sops) (tc tidx tv : sty) (b : query) (c : list Z) tr vs,
+  linear_at ops tc tidx tv b c = Some (tr, vs) ->
+  exists valsl, gather b (fst (model ops tc tidx tv (fun n => nth n valsl []) 0 (length c <=? 3)%nat c)) = Some (tr, valsl) /\
+    forall q, (q < length vs)%nat -> nth q vs 0%Z = snd (model ops tc tidx tv (fun n => nth n valsl []) q (length c <=? 3)%nat c).
+Proof. exact model_is_linear_at. Qed.
+
 Print Assumptions C03_generic_branch_is_interpolant.
+Print Assumptions C03_code_branch_generic_5.
+Print Assumptions C03_model_is_the_layer.
 Print Assumptions C03_lattice_exact_specialised.
 Print Assumptions C03_lattice_exact_generic.
 Print Assumptions C03_layer_at_lattice_point.
